@@ -47,6 +47,11 @@ const InfiniteRetriesErrRecovery = -1
 // never surfaced: the cleanup goroutine maps it to StatusUserStopped.
 var errUserStopDuringRecovery = cerrors.New("pipeline stopped by user during recovery backoff")
 
+// errGracefulShutdownDuringRecovery is the shutdown counterpart: returned by
+// StartWithBackoff when StopAll(ErrGracefulShutdown) was called during the
+// backoff. The cleanup goroutine maps it to StatusSystemStopped.
+var errGracefulShutdownDuringRecovery = cerrors.New("graceful shutdown during recovery backoff")
+
 type FailureEvent struct {
 	// ID is the ID of the pipeline which failed.
 	ID    string
@@ -86,6 +91,11 @@ type Service struct {
 
 	handlers         []FailureHandler
 	runningPipelines *csync.Map[string, *runnablePipeline]
+
+	// isGracefulShutdown is set by StopAll when Conduit shuts down gracefully.
+	// From then on auto-recovery must not restart pipelines: a run parked in
+	// the recovery backoff has no nodes StopAll could stop.
+	isGracefulShutdown atomic.Bool
 
 	// publishMu serializes WRITERS to runningPipelines — the publication in
 	// runPipeline and every compare-and-delete — so the read-compare-delete
@@ -307,6 +317,12 @@ func (s *Service) StartWithBackoff(ctx context.Context, rp *runnablePipeline) er
 		return errUserStopDuringRecovery
 	}
 
+	// A graceful shutdown began while we were waiting: do not restart the
+	// pipeline in the middle of it, finalize a system stop instead.
+	if s.isGracefulShutdown.Load() {
+		return errGracefulShutdownDuringRecovery
+	}
+
 	return s.Start(ctx, rp.pipeline.ID)
 }
 
@@ -393,6 +409,9 @@ func (s *Service) stopForceful(ctx context.Context, rp *runnablePipeline) error 
 // StopAll will ask all the running pipelines to stop gracefully
 // (i.e. that existing messages get processed but not new messages get produced).
 func (s *Service) StopAll(ctx context.Context, reason error) {
+	if cerrors.Is(reason, pipeline.ErrGracefulShutdown) {
+		s.isGracefulShutdown.Store(true)
+	}
 	for _, rp := range s.runningPipelines.All() {
 		p := rp.pipeline
 		if p.GetStatus() != pipeline.StatusRunning && p.GetStatus() != pipeline.StatusRecovering {
@@ -1005,6 +1024,14 @@ func (s *Service) runPipeline(ctx context.Context, rp *runnablePipeline) error {
 					// user stop and run the cleanup below
 					err = nil
 					if updateErr := s.pipelines.UpdateStatus(ctx, rp.pipeline.ID, pipeline.StatusUserStopped, ""); updateErr != nil {
+						return updateErr
+					}
+				} else if cerrors.Is(recoveryErr, errGracefulShutdownDuringRecovery) {
+					// Conduit is shutting down: finalize as a system stop (so
+					// the pipeline is started again on the next boot) and run
+					// the cleanup below
+					err = nil
+					if updateErr := s.pipelines.UpdateStatus(ctx, rp.pipeline.ID, pipeline.StatusSystemStopped, ""); updateErr != nil {
 						return updateErr
 					}
 				} else if recoveryErr != nil {
